@@ -196,12 +196,179 @@ func c14Check(g *gram.Grammar, b gram.Built) (what string, class string, shape m
 	if s3 := tree2.String(); s3 != s2 {
 		return fmt.Sprintf("EBNF print/parse is not a fixpoint: %q vs %q", trunc(s2, 300), trunc(s3, 300)), "", shape
 	}
+	// structure: the EBNF of every production must have the shape of the grammar (same nesting of
+	// alternatives, sequences, negations, lookahead groups and modifiers, redundant parentheses aside)
+	byName := map[string]*ebnf.Production{}
+	for _, p := range tree.Productions {
+		byName[p.Production] = p
+	}
+	reach := gram.Analyse(g).Reachable()
+	for _, p := range g.Prods {
+		if !reach[p.Name] {
+			continue
+		}
+		ep := byName[p.Name]
+		if ep == nil {
+			continue
+		}
+		if a, b := nfIR(p, p.Expr), nfEBNF(ep.Expression); a != b {
+			return fmt.Sprintf("EBNF of production %s does not have the structure of the grammar: grammar %s, EBNF %s | EBNF: %s", p.Name, a, b, trunc(s, 600)), "", shape
+		}
+	}
+	// ParserForProduction must not disturb the parser it was derived from
+	if sub, ok, err := b.SubString(); ok {
+		if err != nil {
+			return "ParserForProduction failed for a production of the grammar: " + err.Error(), "", shape
+		}
+		if _, perr := ebnf.ParseString(sub); perr != nil {
+			return fmt.Sprintf("String() of a ParserForProduction parser is not valid EBNF: %v | %s", perr, trunc(sub, 400)), "", shape
+		}
+		var again string
+		mon.Guard(func() { again = b.String() })
+		if again != s {
+			return fmt.Sprintf("Parser.String() changed after ParserForProduction was called: before %s | after %s", trunc(s, 300), trunc(again, 300)), "", shape
+		}
+		shape["ParserForProduction"] = true
+	}
 	for k := range want {
 		if strings.HasPrefix(k, "op:") {
 			shape[k] = true
 		}
 	}
 	return "", "", shape
+}
+
+// ---- structural normal form shared by the IR and the parsed EBNF tree
+
+func nfJoin(kind string, kids []string) string {
+	// flatten nested nodes of the same kind, drop single-element wrappers
+	var flat []string
+	for _, k := range kids {
+		if strings.HasPrefix(k, kind+"(") && strings.HasSuffix(k, ")") && nfBalanced(k[len(kind)+1:len(k)-1]) {
+			flat = append(flat, nfSplit(k[len(kind)+1:len(k)-1])...)
+		} else {
+			flat = append(flat, k)
+		}
+	}
+	if len(flat) == 1 {
+		return flat[0]
+	}
+	return kind + "(" + strings.Join(flat, ",") + ")"
+}
+
+func nfBalanced(s string) bool {
+	d := 0
+	inq := false
+	for i := 0; i < len(s); i++ {
+		switch {
+		case s[i] == '\\' && inq:
+			i++
+		case s[i] == '"':
+			inq = !inq
+		case inq:
+		case s[i] == '(':
+			d++
+		case s[i] == ')':
+			d--
+			if d < 0 {
+				return false
+			}
+		}
+	}
+	return d == 0
+}
+
+// nfSplit splits a comma-separated list at depth 0 (outside quotes).
+func nfSplit(s string) []string {
+	var out []string
+	d, start := 0, 0
+	inq := false
+	for i := 0; i < len(s); i++ {
+		switch {
+		case s[i] == '\\' && inq:
+			i++
+		case s[i] == '"':
+			inq = !inq
+		case inq:
+		case s[i] == '(':
+			d++
+		case s[i] == ')':
+			d--
+		case s[i] == ',' && d == 0:
+			out = append(out, s[start:i])
+			start = i + 1
+		}
+	}
+	return append(out, s[start:])
+}
+
+func nfIR(p *gram.Prod, e *gram.Expr) string {
+	switch e.Op {
+	case "lit":
+		return "lit" + strconv.Quote(e.Text)
+	case "ref":
+		return "tok<" + strings.ToLower(e.Typ) + ">"
+	case "sub":
+		return "prod:" + p.Fields[e.Field].Target
+	case "cap":
+		return nfIR(p, e.Kids[0])
+	case "neg":
+		return "neg(" + nfIR(p, e.Kids[0]) + ")"
+	case "look":
+		if e.Negative {
+			return "look!(" + nfIR(p, e.Kids[0]) + ")"
+		}
+		return "look=(" + nfIR(p, e.Kids[0]) + ")"
+	case "grp":
+		if e.Mode == "" {
+			return nfIR(p, e.Kids[0])
+		}
+		return "rep" + e.Mode + "(" + nfIR(p, e.Kids[0]) + ")"
+	case "seq", "alt":
+		var kids []string
+		for _, k := range e.Kids {
+			kids = append(kids, nfIR(p, k))
+		}
+		return nfJoin(e.Op, kids)
+	}
+	return "?"
+}
+
+func nfEBNF(x *ebnf.Expression) string {
+	var alts []string
+	for _, sq := range x.Alternatives {
+		var terms []string
+		for _, t := range sq.Terms {
+			var base string
+			switch {
+			case t.Name != "":
+				base = "prod:" + t.Name
+			case t.Literal != "":
+				base = "lit" + t.Literal
+			case t.Token != "":
+				base = "tok<" + t.Token + ">"
+			case t.Group != nil:
+				inner := nfEBNF(t.Group.Expr)
+				switch t.Group.Lookahead {
+				case ebnf.LookaheadAssertionNegative:
+					base = "look!(" + inner + ")"
+				case ebnf.LookaheadAssertionPositive:
+					base = "look=(" + inner + ")"
+				default:
+					base = inner
+				}
+			}
+			if t.Negation {
+				base = "neg(" + base + ")"
+			}
+			if t.Repetition != "" {
+				base = "rep" + t.Repetition + "(" + base + ")"
+			}
+			terms = append(terms, base)
+		}
+		alts = append(alts, nfJoin("seq", terms))
+	}
+	return nfJoin("alt", alts)
 }
 
 func c14Child(c *mon.Child) {
